@@ -23,6 +23,9 @@ RULE = ('(a) exhaustive: all 4096 modifier subsets on 3 values, predicted by '
         'url_* / sql_quote / html_quote.  Non-trivial: >= 2 modifiers, or '
         'truncation actually cuts, or null / missing decides.  Distinct = '
         'case hash (subsets distinct by construction).')
+RULE += (
+         'Also: upper-case and further C-style conversions (X, E, G, '
+         'F, o, i, c). ')
 ASSUMPTIONS = [
     'the statement does not say which fixed order the modifiers have: it is '
     'read off pairwise renderings and only its existence, acyclicity and '
